@@ -286,15 +286,15 @@ def check_codec(msgs, trailing, obs):
 def cases(tier, seed):
     out = []
     thorough = tier == 'thorough'
-    for idx in range(150 if thorough else 12):
+    for idx in range(900 if thorough else 12):
         out.append(dict(id='codec-%d' % idx, kind='codec', seed=seed * 811 + idx, count=200 if thorough else 60))
     for mtu in ((60, 64, 100, 128, 256, 1500) if thorough else (64, 100, 256)):
         out.append(dict(id='send-%d' % mtu, kind='send', mtu=mtu, dense=thorough))
     out.append(dict(id='send-none', kind='send', mtu=None, dense=thorough))
     out.append(dict(id='oracle-segments', kind='oracle', seed=seed))
-    for rep in range(40 if thorough else 4):
+    for rep in range(160 if thorough else 4):
         out.append(dict(id='perm-%d' % rep, kind='perm', seed=seed * 17 + rep, maxn=6 if thorough else 5))
-    for rep in range(240 if thorough else 8):
+    for rep in range(2400 if thorough else 8):
         out.append(dict(id='inter-%d' % rep, kind='inter', seed=seed * 29 + rep, count=10 if thorough else 5))
     return out
 
